@@ -33,6 +33,8 @@ enum Fail {
     SliceOob,
     SqrtNeg,
     OpenMissing,
+    /// connecting to a port nobody listens on: an effect error (not a submission error)
+    TcpRefused,
     Ownership,
     FilterSpawn,
     FilterSend,
@@ -121,6 +123,7 @@ fn victim_def(f: Fail, spin: u32, receives: bool) -> (String, bool) {
         Fail::SliceOob => ("[0x0102, 5, 2] __binary_slice__ __binary_length__".to_string(), false),
         Fail::SqrtNeg => ("-4 __integer_sqrt__".to_string(), false),
         Fail::OpenMissing => ("f = [\"/nonexistent\" .0, 0, 0] __file_open__, 0".to_string(), true),
+        Fail::TcpRefused => ("s = [0x7f000001, 9] __tcp_connect__, 0".to_string(), true),
         Fail::Ownership => ("s = @sink, f = [\"/own\" .0, 577, 420] __file_open__, f s, d = [f, 0, 4] __file_read__, 0".to_string(), true),
         Fail::InjectedWrite(_) => ("f = [\"/w\" .0, 577, 420] __file_open__, k = [f, 0, 0xaabbcc] __file_write__, f __file_close__, k".to_string(), true),
         Fail::FilterSpawn => ("! [#'int { =q, @#{ 1 }, Ok }]".to_string(), false),
@@ -183,6 +186,7 @@ impl Property for C15 {
             Fail::SliceOob,
             Fail::SqrtNeg,
             Fail::OpenMissing,
+            Fail::TcpRefused,
             Fail::Ownership,
             Fail::FilterSpawn,
             Fail::FilterSend,
